@@ -140,6 +140,33 @@ func orderInsensitive(info *types.Info, fd *ast.FuncDecl, rs *ast.RangeStmt) (bo
 				return check(s.Else)
 			}
 			return true, ""
+		case *ast.SwitchStmt:
+			// the clauses are alternatives: each must be order-insensitive on its own
+			if s.Init != nil {
+				if ok, why := check(s.Init); !ok {
+					return false, why
+				}
+			}
+			for _, c := range s.Body.List {
+				if ok, why := checkList(c.(*ast.CaseClause).Body); !ok {
+					return false, why
+				}
+			}
+			return true, ""
+		case *ast.TypeSwitchStmt:
+			for _, c := range s.Body.List {
+				if ok, why := checkList(c.(*ast.CaseClause).Body); !ok {
+					return false, why
+				}
+			}
+			return true, ""
+		case *ast.RangeStmt:
+			// a nested loop over something else: its body is checked with the same rules (its own iteration order is
+			// that of a slice or is covered by this same rule when it is a map)
+			if _, isMap := info.TypeOf(s.X).Underlying().(*types.Map); isMap {
+				return false, "nested range over a map"
+			}
+			return checkList(s.Body.List)
 		case *ast.BranchStmt:
 			if s.Tok == token.CONTINUE {
 				return true, ""
@@ -184,6 +211,9 @@ func orderInsensitive(info *types.Info, fd *ast.FuncDecl, rs *ast.RangeStmt) (bo
 					if _, isMap := info.TypeOf(lx.X).Underlying().(*types.Map); isMap {
 						if id, ok := lx.Index.(*ast.Ident); ok && keyObj != nil && info.Uses[id] == keyObj {
 							continue
+						}
+						if i < len(s.Rhs) && isConst(s.Rhs[i]) {
+							continue // m[anything] = constant: every writer writes the same value
 						}
 						return false, "stores into a map under a key other than the iteration key (collisions resolve in iteration order)"
 					}
